@@ -592,8 +592,9 @@ def implicit(m: Model, d: Data):
       outputs=[d.qLU],
     )
 
-    # 3. Compute RNE derivatives, scale by timestep, and subtract in-place from qLU
-    derivative.deriv_rne_vel(m, d, d.qLU, flg_subtract=True)
+    # 3. Compute RNE derivatives d(bias)/dv, scale by timestep, and ADD in-place to qLU:
+    #    qLU = M - dt * (qDeriv_smooth - d(bias)/dv)
+    derivative.deriv_rne_vel(m, d, d.qLU, flg_subtract=False)
 
     # 4. Factorize and solve: qacc = qLU \ Ma
     qacc = wp.empty((d.nworld, m.nv), dtype=float)
